@@ -139,3 +139,35 @@ Theorem C03_monitor_accepts_model : forall scrub cfg m client,
         (map name_value (read_cookies (h_get k_cookie out))) = true.
 Proof. exact monitor_accepts_model. Qed.
 Print Assumptions C03_monitor_accepts_model.
+
+(* A refresh (RefreshDeadline passed, /refresh 201, /profile 200), a revalidation (ValidDeadline
+   passed) or a grace-period fallback is due: the identity headers handed on are those of the
+   session the proxy re-saves in this very response (the provider's fresh group answer filtered by
+   the allowed groups, the rotated access token), not of the session the cookie presented. *)
+Theorem C03_asserted_session_is_resaved : forall scrub cfg allowed s d client,
+  let s' := saved_or_presented allowed s d in
+  let h := to_reverse_proxy scrub cfg (Authenticated (asserted_session allowed s d)) client in
+  h_get k_xfu h = [s_user s'] /\ h_get k_xfe h = [s_email s'] /\ h_get k_xfg h = [join [44] (s_groups s')] /\
+  (scrub = true -> h_get k_xfat h = allowed_token cfg s').
+Proof. exact due_auth_headers. Qed.
+Print Assumptions C03_asserted_session_is_resaved.
+
+Theorem C03_refresh_headers : forall cfg allowed s tok ug client,
+  let h := to_reverse_proxy true cfg (Authenticated (asserted_session allowed s (RefreshDue tok ug))) client in
+  h_get k_xfu h = [s_user s] /\ h_get k_xfe h = [s_email s] /\
+  h_get k_xfg h = [join [44] (matched_groups allowed ug)] /\
+  (pass_access_token cfg = true -> tok <> [] -> h_get k_xfat h = [tok]).
+Proof. exact refresh_headers. Qed.
+Print Assumptions C03_refresh_headers.
+
+(* the monitor (which judges by the re-saved session read from the response) accepts the model *)
+Theorem C03_monitor_accepts_model_due : forall scrub cfg m allowed d client,
+  (m = SkipAuth \/ operator_clean cfg k_connection) ->
+  (forall k, In k identity_keys -> client_conn_names client k = false) ->
+  (scrub = true \/ forall k, In k identity_keys -> client_sent client k = false) ->
+  let out := upstream scrub cfg (model_mode allowed d m) client in
+  holds cfg (observed_mode (model_saved allowed d m) m) client
+        (h_get k_xfu out) (h_get k_xfe out) (h_get k_xfg out) (h_get k_xfat out) (h_get k_cookie out)
+        (map name_value (read_cookies (h_get k_cookie out))) = true.
+Proof. exact monitor_accepts_model_due. Qed.
+Print Assumptions C03_monitor_accepts_model_due.
